@@ -22,6 +22,16 @@ why = {
  'C13-m6': 'a map listed twice in a merge list is applied once: which occurrence wins is an ordering fact over runtime values',
  'C14-m5': 'parseSnippet keeps the original text only for multi-line strings: single-line CSV fields then get the YAML reading of their text; value-level',
  'C16-m5': 'padding nulls reuse a node keyed with the requested index; AddChild keeps a key a child already has (the known finding K1), so the stale key survives — the rule that would catch it is the one whose violation on the pinned tree is recorded as known',
+ 'C01-m6': 'recursiveNodeEqual lets a null on the left equal any scalar on the right (an early exit moved above the tag comparison): which values compare equal is value-level',
+ 'C02-m8': 'the glob matcher gains a backslash escape, so a key containing a backslash no longer matches its own name: a change inside the matching algorithm, value-level',
+ 'C03-m8': 'float-tagged map keys become numbers in paths and are re-printed canonically (1.10 -> 1.1): which text a path element prints as is value-level',
+ 'C04-m8': 'the append flag is dropped for an empty right-hand sequence, which then replaces instead of appending nothing: a conjunct added to a value computation, no structural footprint',
+ 'C07-m8': 'getParsedKey loses its !!str shortcut, so quoted numeric-looking keys are canonicalised ("010" -> 10): value-level (same family as C16-m3)',
+ 'C10-m8': 'the yaml decoder no longer clears its leading content after handing it to the first document: a one-shot field that is read but not reset inside Decode; S4 only demands that Init resets what Decode writes',
+ 'C13-m7': 'explode on a read-only context works on a copy whose aliases still point at the un-exploded original: an ordering fact between explode and alias resolution, value-level',
+ 'C14-m8': 'DeeplyAssign merges only non-empty maps, so an empty TOML table header overwrites what is at its path: a conjunct added to a guard, value-level',
+ 'C19-m7': 'the JSON decoder asks More() before decoding; goccy returns false on a stray closing bracket, which turns a syntax error into a clean end of input: the contract of a third-party call, not visible in the shape of the caller',
+ 'C19-m8': 'the XML encoder silently skips non-scalar attribute values instead of returning an error: the removed error was a value-level validation, no rule demands that every unsupported shape is rejected',
  'C18-m4': 'leading content printed only when non-empty: encoder-internal state is then not reset between documents; no rule models the encoder state machine',
 }
 res = {}
